@@ -126,7 +126,15 @@ htp_status_t htp_process_request_header_generic(htp_connp_t *connp, unsigned cha
         bstr_free(h->value);
         free(h);
     } else {
-        // Add as a new header.
+        // Add as a new header, unless there are too many already.
+        if (htp_table_size(connp->in_tx->request_headers) >= HTP_MAX_HEADERS_NUMBER) {
+            htp_log(connp, HTP_LOG_MARK, HTP_LOG_ERROR, 0, "Too many request headers");
+            bstr_free(h->name);
+            bstr_free(h->value);
+            free(h);
+            return HTP_ERROR;
+        }
+
         if (htp_table_add(connp->in_tx->request_headers, h->name, h) != HTP_OK) {
             bstr_free(h->name);
             bstr_free(h->value);
